@@ -262,6 +262,17 @@ def zipWithE {α β γ} (f : α → β → Except Err γ) : List α → List β 
       pure (x :: xs)
   | _, _ => pure []
 
+/-- `_select_preconditioner`: `lax.cond` over (old, new) needs equal types; the result has them -/
+def selectPrecond (c : Cfg) (maxSize : Nat) (stat prev : Mat) : Except Err Mat :=
+  if newPrecond c maxSize stat.dim0 = prev then .ok prev
+  else .error (.internal .update "preconditioner cond types")
+
+/-- `efficient_cond(perform_step, [metrics_for_state], [state.training_metrics])`: equal carry types -/
+def metricsCarry (c : Cfg) (n : Nat) (old : Option Metrics) : Except Err (Option Metrics) :=
+  if c.trainMetrics then
+    (if old = some ⟨n, c.genFd⟩ then .ok old else .error (.internal .update "metrics carry types"))
+  else .ok none
+
 /-- `_compute_preconditioners` for one parameter, given the padded size of the whole tree -/
 def computePrecond (c : Cfg) (maxSize : Nat) (st : List Mat) (s : PStats) :
     Except Err (List Mat × Option Metrics) :=
@@ -269,18 +280,16 @@ def computePrecond (c : Cfg) (maxSize : Nat) (st : List Mat) (s : PStats) :
     -- `num_statistics == 0`: `[]` and `init_training_metrics(0, ...)`
     .ok ([], metricsOf c 0)
   else if s.pr.length ≠ st.length then .error (.internal .update "number of preconditioners")
-  else do
-    let pr ← zipWithE (fun (stat prev : Mat) =>
-        let new := newPrecond c maxSize stat.dim0
-        -- `_select_preconditioner`: lax.cond over (old, new)
-        if new = prev then pure new else .error (.internal .update "preconditioner cond types"))
-      st s.pr
-    let tm ← if c.trainMetrics then
-        (let new : Metrics := ⟨st.length, c.genFd⟩
-         -- `efficient_cond(perform_step, [metrics_for_state], [state.training_metrics])`
-         if s.tm = some new then pure (some new) else .error (.internal .update "metrics carry types"))
-      else pure none
-    pure (pr, tm)
+  else match zipWithE (selectPrecond c maxSize) st s.pr, metricsCarry c st.length s.tm with
+    | .ok pr, .ok tm => .ok (pr, tm)
+    | .error e, _ => .error e
+    | _, .error e => .error e
+
+/-- the payload of a `QuantizedValue` dequantizes to an array of the given shape -/
+def qvShapeIs (q : QV) (shape : List Nat) : Bool :=
+  match q.q with
+  | some l => decide (l.shape = shape)
+  | none => false
 
 /-- `_transform_grad` for one parameter -/
 def transformGrad (c : Cfg) (shape : List Nat) (s : PStats) : Except Err (QV × QV × QV) := do
@@ -293,10 +302,7 @@ def transformGrad (c : Cfg) (shape : List Nat) (s : PStats) : Except Err (QV × 
       (match s.ds.q with
        | some l => pure (plainQV l.shape)
        | none => pure emptyQV)
-  let chk := fun (q : QV) => match q.q with
-    | some l => decide (l.shape = shape)
-    | none => false
-  if chk s.dm && chk s.m then pure (ds, momQV c shape, momQV c shape)
+  if qvShapeIs s.dm shape && qvShapeIs s.m shape then pure (ds, momQV c shape, momQV c shape)
   else .error (.internal .update "momentum shape")
 
 def mapE {α β} (f : α → Except Err β) : List α → Except Err (List β)
